@@ -15,6 +15,9 @@ use std::sync::Arc;
 pub enum Cfg {
     /// flow throttling: `rate` per `interval_ms`, max queueing `maxq_ms`
     Flow { rate: f64, interval_ms: u32, maxq_ms: u32, phase_ns: u64 },
+    /// two flow throttling rules on ONE resource (rates a and b per `interval_ms`): whatever the order
+    /// in which they are evaluated, an admitted caller is released no earlier than the slot of EVERY rule
+    Flow2 { rates: [f64; 2], interval_ms: u32, maxq_ms: u32 },
     /// hotspot QPS throttling: `q` per `d` seconds per value
     Hotspot { q: u64, d: u64, maxq_ms: u64, overrides: Vec<(String, u64)> },
 }
@@ -32,6 +35,8 @@ pub struct C07 {
     gaps: Vec<u64>,
     /// flow: last scheduled time (ns); hotspot: per value last scheduled time (ms)
     last_ns: i64,
+    /// Flow2: lower bound of each rule's last scheduled slot (ns)
+    lb: [i64; 2],
     last_ms: BTreeMap<String, u64>,
     /// scheduled times of admitted requests, per value ("" for flow), with their cost
     sched: Vec<(String, u64, u64)>,
@@ -50,6 +55,15 @@ impl C07 {
                 let maxq = *maxq_ms as u64 * 1_000_000;
                 vec![0, 1, cost.saturating_sub(1), cost, cost + 1, maxq, maxq + 1, 3 * cost, cost.saturating_sub(maxq), cost.saturating_sub(maxq).saturating_sub(1)]
             }
+            Cfg::Flow2 { rates, interval_ms, maxq_ms } => {
+                let mut g = vec![0, 1];
+                for r in rates {
+                    let cost = (1.0 / r * (*interval_ms as f64 * 1e6)) as u64;
+                    g.extend([cost.saturating_sub(1), cost, cost + 1, 3 * cost]);
+                }
+                g.push(*maxq_ms as u64 * 1_000_000);
+                g
+            }
             Cfg::Hotspot { q, d, maxq_ms, .. } => {
                 let cost = if *q > 0 { ((d * 1000) as f64 / *q as f64).round() as u64 } else { 1 };
                 vec![0, 1, cost.saturating_sub(1), cost, cost + 1, *maxq_ms, maxq_ms + 1, 3 * cost, cost.saturating_sub(*maxq_ms), cost.saturating_sub(*maxq_ms) + 1]
@@ -57,7 +71,7 @@ impl C07 {
         };
         gaps.sort();
         gaps.dedup();
-        C07 { cfg: cfg.clone(), gaps, last_ns: 0, last_ms: BTreeMap::new(), sched: vec![], keep: vec![], queued: 0, rejected: 0, passed: 0, at_max: 0 }
+        C07 { cfg: cfg.clone(), gaps, last_ns: 0, lb: [0; 2], last_ms: BTreeMap::new(), sched: vec![], keep: vec![], queued: 0, rejected: 0, passed: 0, at_max: 0 }
     }
 }
 
@@ -69,6 +83,7 @@ impl Subject for C07 {
         }
         reset_world(T0_MS);
         self.last_ns = 0;
+        self.lb = [0; 2];
         self.last_ms.clear();
         self.sched.clear();
         self.queued = 0;
@@ -89,6 +104,27 @@ impl Subject for C07 {
                     ..Default::default()
                 })]);
             }
+            Cfg::Flow2 { rates, interval_ms, maxq_ms } => {
+                clock::set_ns(T0_MS * 1_000_000);
+                flow::load_rules(
+                    rates
+                        .iter()
+                        .enumerate()
+                        .map(|(i, r)| {
+                            Arc::new(flow::Rule {
+                                id: format!("f{}", i),
+                                resource: RES.into(),
+                                threshold: *r,
+                                stat_interval_ms: *interval_ms,
+                                max_queueing_time_ms: *maxq_ms,
+                                calculate_strategy: flow::CalculateStrategy::Direct,
+                                control_strategy: flow::ControlStrategy::Throttling,
+                                ..Default::default()
+                            })
+                        })
+                        .collect(),
+                );
+            }
             Cfg::Hotspot { q, d, maxq_ms, overrides } => {
                 hotspot::load_rules(vec![Arc::new(hotspot::Rule {
                     id: "h0".into(),
@@ -108,6 +144,13 @@ impl Subject for C07 {
     fn enabled(&self) -> Vec<Op> {
         let mut v = vec![];
         let hot = matches!(self.cfg, Cfg::Hotspot { .. });
+        if let Cfg::Flow2 { .. } = self.cfg {
+            for g in &self.gaps {
+                v.push(Op::Arrive { gap: *g, batch: 1, value: "A", direct: false });
+            }
+            v.push(Op::Arrive { gap: 0, batch: 2, value: "A", direct: false });
+            return v;
+        }
         for g in &self.gaps {
             v.push(Op::Arrive { gap: *g, batch: 1, value: "A", direct: false });
         }
@@ -115,7 +158,7 @@ impl Subject for C07 {
         v.push(Op::Arrive { gap: 0, batch: 0, value: "A", direct: false });
         let big = match &self.cfg {
             Cfg::Flow { rate, .. } => rate.ceil() as u32 + 1,
-            Cfg::Hotspot { .. } => 3,
+            Cfg::Hotspot { .. } | Cfg::Flow2 { .. } => 3,
         };
         v.push(Op::Arrive { gap: 1, batch: big, value: "A", direct: false });
         v.push(Op::Arrive { gap: 0, batch: 1, value: "A", direct: true });
@@ -236,6 +279,48 @@ impl Subject for C07 {
                             }
                         }
                     }
+                }
+            }
+            Cfg::Flow2 { rates, interval_ms, .. } => {
+                clock::advance_ns(*gap);
+                let now = clock::get_ns() as i64;
+                let stat_ns = interval_ms as f64 * 1e6;
+                let costs: Vec<i64> = rates.iter().map(|r| ((*batch as f64) / r * stat_ns) as i64).collect();
+                let must_reject = rates.iter().any(|r| *batch as f64 > *r);
+                let admitted = match build(RES, TrafficType::Outbound, *batch) {
+                    Built::Ok(e) => {
+                        self.keep.push(e);
+                        true
+                    }
+                    Built::Blocked(b, _) => {
+                        if b.block_type != "Flow" {
+                            return Err(format!("block-type: {}", b.block_type));
+                        }
+                        false
+                    }
+                };
+                let after = clock::get_ns() as i64;
+                let sleeps = clock::take_sleeps();
+                if admitted {
+                    if must_reject {
+                        return Err(format!("admitted-beyond-rate: batch {} exceeds a rule's rate {:?}", batch, rates));
+                    }
+                    // each rule's slot for this request is at least max(now, previous slot + cost);
+                    // lb[k] is a lower bound of rule k's previous slot whatever the evaluation order
+                    for k in 0..2 {
+                        let slot_lb = if self.lb[k] == 0 { now } else { now.max(self.lb[k] + costs[k]) };
+                        if after + 1 < slot_lb {
+                            return Err(format!("released-early: two throttling rules: build() returned {} ns before rule f{}'s slot (slept {:?} ns; previous slot >= +{} ns, cost {} ns)", slot_lb - after, k, sleeps, self.lb[k] - (T0_MS * 1_000_000) as i64, costs[k]));
+                        }
+                        self.lb[k] = slot_lb;
+                    }
+                    if after > now {
+                        self.queued += 1;
+                    } else {
+                        self.passed += 1;
+                    }
+                } else {
+                    self.rejected += 1;
                 }
             }
             Cfg::Hotspot { q, d, maxq_ms, overrides } => {
@@ -366,6 +451,18 @@ pub fn configs(thorough: bool) -> Vec<Cfg> {
                 }
                 v.push(Cfg::Flow { rate, interval_ms, maxq_ms, phase_ns: [0, 1, 999_999][k % 3] });
             }
+        }
+    }
+    // two throttling rules on one resource: slow + fast, fast + slow, equal
+    let mut k2 = 0;
+    let _ = k2;
+    for rates in [[2.0, 1000.0], [1000.0, 2.0], [2.0, 5.0], [5.0, 2.0], [3.0, 3.0]] {
+        for maxq_ms in [2000u32, 50] {
+            k2 += 1;
+            if !thorough && maxq_ms != 2000 {
+                continue;
+            }
+            v.push(Cfg::Flow2 { rates, interval_ms: 1000, maxq_ms });
         }
     }
     for q in [1u64, 3, 1000, 0] {
